@@ -62,6 +62,28 @@ fn run_generic(mode: Mode, args: &Args, prefix: &str, rule: &str) {
 			format!("Vec<Box<()>>\talloc\t1\t{}\tinput=slice\tlen={}\tpeak_live={}\tdecoded={:?}", hex(&inp), inp.len(), u.peak, r.ok())
 		});
 	}
+	if mode == Mode::C01 && args.only.is_none() {
+		// the largest element counts the format can represent must encode, not panic:
+		// 2^32-1 zero-sized elements, 2^29-1 bits
+		use parity_scale_codec::Encode;
+		use std::panic::{catch_unwind, AssertUnwindSafe};
+		let r = catch_unwind(AssertUnwindSafe(|| vec![(); u32::MAX as usize].encode())).map_err(drop);
+		cx.stats.bump("largest-count/vec-of-unit");
+		cx.oracle.check(r == Ok(vec![0x03, 0xff, 0xff, 0xff, 0xff]), "encode-of-representable-count-fails", || format!("vec![(); u32::MAX].encode() = {:?}", r.as_ref().map(|b| hex(&b[..b.len().min(8)]))));
+		let r = catch_unwind(AssertUnwindSafe(|| std::collections::VecDeque::from(vec![(); u32::MAX as usize]).encode())).map_err(drop);
+		cx.oracle.check(r == Ok(vec![0x03, 0xff, 0xff, 0xff, 0xff]), "encode-of-representable-count-fails", || format!("VecDeque of u32::MAX units: {:?}", r.as_ref().map(|b| hex(&b[..b.len().min(8)]))));
+		#[cfg(not(feature = "no-opt"))]
+		{
+			let bits = (1usize << 29) - 1;
+			let r = catch_unwind(AssertUnwindSafe(|| {
+				let e = BitVec::<u8, Lsb0>::repeat(false, bits).encode();
+				(e.len(), e[..4].to_vec(), e[4..].iter().all(|b| *b == 0))
+			}))
+			.map_err(drop);
+			cx.stats.bump("largest-count/bits");
+			cx.oracle.check(r == Ok((4 + (1 << 26), vec![0xfe, 0xff, 0xff, 0x7f], true)), "encode-of-representable-count-fails", || format!("BitVec of 2^29-1 bits: {:?}", r));
+		}
+	}
 	if mode == Mode::C18 && args.only.is_none() {
 		gen::len_cases(&mut cx);
 	}
